@@ -30,7 +30,8 @@ type half struct {
 	rec  bool   // record everything written (handshake transcripts)
 	log  []byte
 
-	gate bool // network stall: writers block while it is set
+	gate    bool // network stall: writers block while it is set
+	waiting int  // writers currently blocked at the gate
 
 	written int64
 	reads   int64
@@ -51,7 +52,10 @@ func (h *half) write(p []byte) (int, error) {
 	h.mu.Lock()
 	defer h.mu.Unlock()
 	for h.gate && !h.wclosed && !h.rclosed {
+		h.waiting++
+		h.cond.Broadcast()
 		h.cond.Wait()
+		h.waiting--
 	}
 	if h.wclosed || h.rclosed {
 		return 0, errClosedPipe
@@ -148,6 +152,22 @@ func (h *half) setGate(on bool) {
 	h.gate = on
 	h.cond.Broadcast()
 	h.mu.Unlock()
+}
+
+// waitBlockedWriter waits until a writer is blocked at the gate; false = watchdog.
+func (h *half) waitBlockedWriter(d time.Duration) bool {
+	t := time.AfterFunc(d, func() { h.mu.Lock(); h.cond.Broadcast(); h.mu.Unlock() })
+	defer t.Stop()
+	start := time.Now()
+	h.mu.Lock()
+	defer h.mu.Unlock()
+	for h.waiting == 0 {
+		if time.Since(start) >= d || h.wclosed || h.rclosed {
+			return false
+		}
+		h.cond.Wait()
+	}
+	return true
 }
 
 func (h *half) takeHeld() []byte {
